@@ -198,17 +198,37 @@ def compare_reflection(chk, w, out0, outr, L, desc, wit, noise_free):
 
 def make_world(seed, kind):
     if kind == "events":
-        return c14.event_world(seed), False
+        return c14.event_world(seed, twins=False), False      # exact positional ties are outside the quantifier of C11
     if kind == "noise-free":
         w = world2.rich_world(seed, n_chroms=3, genes_per_chrom=3, reads_per_t=0, hidden_cov=0, multimappers=False, unmapped=0)
         rng = w.rng
+        # unannotated isoforms whose first (last) exon begins (ends) in the middle of an intron of the annotated isoform, on both strands:
+        # the left-hand and the right-hand version are mirror images of each other
+        from vlib.world import Gene, Transcript
+        for ci, chrom in enumerate(w.chrom_order):
+            p = max([g.end for g in w.genes if g.chrom == chrom] + [1000]) + 2500
+            for k, (strand, side) in enumerate((("+", "L"), ("-", "L"), ("+", "R"), ("-", "R"))):
+                if p + 6000 > w.chrom_len(chrom):
+                    break
+                a = [(p, p + 299), (p + 1000, p + 1299), (p + 2000, p + 2299), (p + 3000, p + 3399)]
+                if side == "L":
+                    b = [(p + 650 + 10 * k, p + 1299), a[2], a[3]]
+                else:
+                    b = [a[0], a[1], (p + 2000, p + 2640 + 10 * k)]
+                g = Gene("ALT%d_%d" % (ci + 1, k + 1), chrom, strand)
+                g.transcripts.append(Transcript(g.id + ".t1", g.id, chrom, strand, a, True, "alt-terminal"))
+                g.hidden.append(Transcript(g.id + ".h1", g.id, chrom, strand, b, False, "alt-terminal-exon-inside-intron"))
+                for intr in g.transcripts[0].introns:
+                    w.plant_sites(chrom, intr, strand)
+                w.genes.append(g)
+                p += 3400 + 2500
         for g in w.genes:
             for t in g.transcripts:
                 for _ in range(5):
                     w.read_from_transcript(t, mode=rng.choice(("full", "full", "trunc5", "trunc3")), jitter=0, polya=rng.random() < 0.7,
                                            flag=rng.choice((0, 16)))
             for t in g.hidden:
-                for _ in range(6):
+                for _ in range(10 if t.kind == "alt-terminal-exon-inside-intron" else 6):
                     w.read_from_transcript(t, mode="full", jitter=0, polya=True, flag=rng.choice((0, 16)))
         return w, True
     w = world2.rich_world(seed, n_chroms=3, genes_per_chrom=3, reads_per_t=5, hidden_cov=5, multimappers=False, unmapped=1)
